@@ -70,8 +70,15 @@ class ConnView:
 
 
 class Sim:
-    def __init__(self, seed: int = 0, start: float = core.START_TIME) -> None:
+    def __init__(self, seed: int = 0, start: float | None = None) -> None:
         self.seed = seed
+        if start is None:
+            # where on the clock a scenario starts rotates: a whole second, a fraction, a process that has been up for a day / a month (float
+            # spacing of loop.time() grows; code that rounds, truncates or aligns deadlines behaves differently).  Scenarios speak in offsets
+            # from `start_time`; absolute instants in lifecycle specs are relative to core.START_TIME and shifted when they are scheduled.
+            start = rotation.decide("clock_start", (core.START_TIME, core.START_TIME, 1000.625, core.START_TIME, 2592000.75, core.START_TIME, 86399.9995))
+            self._start_rotated = True
+        self.start_time = start
         self.clock = start
         self._seq = 0
         self.ev: list[tuple[Any, ...]] = []
@@ -131,6 +138,8 @@ class Sim:
 
         monitors.install()
         rotation.new_case()
+        if getattr(self, "_start_rotated", False):
+            rotation.LAST.setdefault("clock_start", []).append(self.start_time)   # (decided in __init__, before this case's record was opened)
         logcfg.set_debug(False)
         monitors.CURRENT = self
         self._old_impl_socket = impl.socket
